@@ -82,6 +82,15 @@ def to_isla(t: PT):
     return DerivationTree(s, None if kids is None else [to_isla(k) for k in kids], id=i)
 
 
+def to_isla_fresh(t: PT):
+    """like to_isla, but with identities drawn from DerivationTree's own global counter (as every tree built by
+    ISLa itself has), so that they can never collide with identities ISLa generates later"""
+    from isla.derivation_tree import DerivationTree
+
+    i, s, kids = t
+    return DerivationTree(s, None if kids is None else [to_isla_fresh(k) for k in kids])
+
+
 def from_isla(dt) -> PT:
     return (dt.id, dt.value, None if dt.children is None else [from_isla(k) for k in dt.children])
 
